@@ -49,9 +49,16 @@ def all_templates(chk, it, tabs, configs):
             continue
         if 'access' in row['sem']:
             mt = mr.extract_mem(it, row, tabs, configs)
-            for key, t in sorted(mt.variants.items()):
-                if not t.has_unknown_parts():
-                    out.append(('M_%s_p%d_m%d_%s' % (nm, key[0], key[1], key[2].replace('-', '_')), t.text(), row))
+            # every successful emitting path, not one per formatting mode: an emitter may choose another runtime function depending on
+            # the alignment hint or the offset, and each of them must be well-defined for every address
+            seen_txt = set()
+            per_key = {}
+            for key, t in mt.all:
+                if not t.has_unknown_parts() and (key, t.text()) not in seen_txt:
+                    seen_txt.add((key, t.text()))
+                    k_ = per_key.get(key, 0)
+                    per_key[key] = k_ + 1
+                    out.append(('M_%s_p%d_m%d_%s%s' % (nm, key[0], key[1], key[2].replace('-', '_'), '_%d' % k_ if k_ else ''), t.text(), row))
             continue
         imm = BULK_IMM.get(row['name'])
         if cls == 'const':
